@@ -8,6 +8,7 @@ import (
 	"path"
 	"path/filepath"
 	"strings"
+	"sync"
 
 	"golang.org/x/mod/module"
 	modzip "golang.org/x/mod/zip"
@@ -147,6 +148,52 @@ func c17TreeOracle(root string, t []*gen.ZipTreeNode, m module.Version) string {
 	return ""
 }
 
+// c17Spell runs f with the directory d/root spelled in one of several ways; the relative
+// spellings need the working directory changed, which is restored before returning (the
+// harness runs nothing else meanwhile).
+var c17SpellMu sync.Mutex
+
+const c17Spellings = 8
+
+func c17Spell(d string, kind int, f func(dir string)) {
+	root := d + "/root"
+	switch kind {
+	case 1:
+		f(d + "/./root")
+	case 2:
+		f(d + "//root")
+	case 3:
+		f(d + "/root/../root")
+	case 4:
+		f(root + "/")
+	case 5, 6, 7:
+		c17SpellMu.Lock()
+		defer c17SpellMu.Unlock()
+		old, err := os.Getwd()
+		if err != nil {
+			panic(err)
+		}
+		defer func() {
+			if err := os.Chdir(old); err != nil {
+				panic(err)
+			}
+		}()
+		to, dir := d, "./root"
+		if kind == 6 {
+			dir = "root"
+		}
+		if kind == 7 {
+			to, dir = root, "."
+		}
+		if err := os.Chdir(to); err != nil {
+			panic(err)
+		}
+		f(dir)
+	default:
+		f(root)
+	}
+}
+
 // ---- run ----------------------------------------------------------------------------------
 
 func c17CountReport(c *hx.Ctx, cf modzip.CheckedFiles) {
@@ -265,44 +312,51 @@ func runC17(c *hx.Ctx) {
 			panic(err)
 		}
 		m := gen.ZipModuleVersion(r)
-		var cf modzip.CheckedFiles
-		var err error
-		var res wire.Val
-		if p, _ := hx.Guard(func() { cf, err = modzip.CheckDir(root) }); p {
-			res = wire.Panic()
-		} else {
-			res = zipReportVal(cf, err)
+		spell := 0
+		if r.Intn(2) == 0 {
+			spell = r.Intn(c17Spellings)
 		}
-		c.Case("zip.CheckDir", wire.L(wire.S(root), zipTreeVal(t)), res)
-		for _, fe := range cf.Omitted {
-			c.Count("dir:omitted:" + zipFileErrKind(fe.Err))
-		}
-		var buf bytes.Buffer
-		var cerr error
-		if p, _ := hx.Guard(func() { cerr = modzip.CreateFromDir(&buf, m, root) }); p {
-			res = wire.Panic()
-		} else {
-			res = zipCreateResultVal(buf.Bytes(), cerr)
-		}
-		c.Case("zip.CreateFromDir", wire.L(wire.S(m.Path), wire.S(m.Version), zipTreeVal(t)), res)
-		if cerr == nil {
-			c.Count("trees:create-ok")
-		} else {
-			c.Count("trees:create-" + zipTopErrClass(cerr))
-		}
-		if plain {
-			// the decidable side condition of the Coq theorem dir_vs_list_agree_partial holds
-			// for this tree: evaluated by the model (the implementation has nothing to say)
-			c.Case("zip.DirListCondition", zipTreeVal(t), wire.Bool(true))
-			msg := c17TreeOracle(root, t, m)
-			c.Check("dir-vs-list", msg == "", "", zipIn{Op: "tree", Tree: zipJsTree(t), ModPath: m.Path, ModVersion: m.Version}, msg)
-			c.Count("trees:plain")
-			if len(cf.Valid) > 0 && len(cf.Omitted) > 0 {
-				c.Nontrivial(zipTreeVal(t).String())
+		c.Count(fmt.Sprintf("dir-spelling:%d", spell))
+		c17Spell(d, spell, func(dir string) {
+			var cf modzip.CheckedFiles
+			var err error
+			var res wire.Val
+			if p, _ := hx.Guard(func() { cf, err = modzip.CheckDir(dir) }); p {
+				res = wire.Panic()
+			} else {
+				res = zipReportVal(cf, err)
 			}
-		} else {
-			c.Count("trees:with-links-or-vcs")
-		}
+			c.Case("zip.CheckDir", wire.L(wire.S(dir), zipTreeVal(t)), res)
+			for _, fe := range cf.Omitted {
+				c.Count("dir:omitted:" + zipFileErrKind(fe.Err))
+			}
+			var buf bytes.Buffer
+			var cerr error
+			if p, _ := hx.Guard(func() { cerr = modzip.CreateFromDir(&buf, m, dir) }); p {
+				res = wire.Panic()
+			} else {
+				res = zipCreateResultVal(buf.Bytes(), cerr)
+			}
+			c.Case("zip.CreateFromDir", wire.L(wire.S(m.Path), wire.S(m.Version), zipTreeVal(t)), res)
+			if cerr == nil {
+				c.Count("trees:create-ok")
+			} else {
+				c.Count("trees:create-" + zipTopErrClass(cerr))
+			}
+			if plain {
+				// the decidable side condition of the Coq theorem dir_vs_list_agree_partial holds
+				// for this tree: evaluated by the model (the implementation has nothing to say)
+				c.Case("zip.DirListCondition", zipTreeVal(t), wire.Bool(true))
+				msg := c17TreeOracle(dir, t, m)
+				c.Check("dir-vs-list", msg == "", "", zipIn{Op: "tree", Tree: zipJsTree(t), ModPath: m.Path, ModVersion: m.Version, TargetKind: spell}, msg)
+				c.Count("trees:plain")
+				if len(cf.Valid) > 0 && len(cf.Omitted) > 0 {
+					c.Nontrivial(zipTreeVal(t).String())
+				}
+			} else {
+				c.Count("trees:with-links-or-vcs")
+			}
+		})
 		zipRemoveAll(d)
 	}
 }
@@ -330,7 +384,9 @@ func replayC17(raw json.RawMessage) (bool, string) {
 		if err := gen.ZipMaterializeTree(root, t); err != nil {
 			return false, err.Error()
 		}
-		msg = c17TreeOracle(root, t, module.Version{Path: in.ModPath, Version: in.ModVersion})
+		c17Spell(d, in.TargetKind, func(dir string) {
+			msg = c17TreeOracle(dir, t, module.Version{Path: in.ModPath, Version: in.ModVersion})
+		})
 		zipRemoveAll(d)
 	default:
 		return false, "unknown op " + in.Op
